@@ -764,7 +764,7 @@ static void conf_parse_entry(struct conf_parse *parse, struct conf_node_object *
                 ch = conf_parse_whitespace(parse, 1);
                 if (ch == '\0')
                     longjmp(parse->env, PARSE_PREMATURE_EOF);
-                if (ch == '\n' || ch == ';') {
+                if (ch == '\n' || ch == ';' || ch == '}') {
                     parse->curr--;
                     break;
                 }
@@ -787,6 +787,10 @@ static void conf_parse_entry(struct conf_parse *parse, struct conf_node_object *
         }
     }
     ch = conf_parse_whitespace(parse, 1);
+    if ((ch == '}') && (parent != &parse->root)) {
+        parse->curr--;
+        return;
+    }
     if ((ch != ';') && (ch != '\n'))
         longjmp(parse->env, PARSE_EXPECTED_SEMICOLON);
 }
